@@ -26,6 +26,10 @@ def install_stubs():
     unicodedata.normalize = _normalize_stub
 
 
+def remove_stubs():
+    unicodedata.normalize = _REAL_NORMALIZE
+
+
 def warmup():
     install_stubs()
 
